@@ -11,6 +11,7 @@ import (
 	"path/filepath"
 	"runtime"
 	"strconv"
+	"sync"
 	"time"
 
 	"github.com/vicanso/pike/compress"
@@ -27,6 +28,7 @@ type c12Result struct {
 	Variants            map[string]int64 `json:"stream_variants"`
 	ValidAfterMalformed int64            `json:"valid_streams_decoded_right_after_malformed_ones"`
 	DenseSweep          int64            `json:"block_streams_of_every_length_decoded"`
+	ConcurrentOps       int64            `json:"concurrent_encode_decode_round_trips"`
 	Malformed           map[string]int64 `json:"malformed_by_format"`
 	MalRejected         int64            `json:"malformed_rejected"`
 	MalAccepted         int64            `json:"malformed_accepted_with_output"`
@@ -174,6 +176,48 @@ func c12Child(args []string) {
 			}
 			res.Distinct = append(res.Distinct, fmt.Sprintf("enc|%d|%d|%s", level, n, kind))
 		}
+	}
+	// ---- (1b) the same encoders and decoders used by many goroutines at once (as concurrent requests do):
+	// every result is checked with the standard decoders; a panic in one goroutine is a verdict
+	{
+		var wg sync.WaitGroup
+		var cmu sync.Mutex
+		var concurrentOps int64
+		for g := 0; g < 16; g++ {
+			wg.Add(1)
+			go func(g int) {
+				defer wg.Done()
+				defer func() {
+					if p := recover(); p != nil {
+						cmu.Lock()
+						res.add(c09Viol{Kind: "encoder_panic_or_hang", Params: map[string]string{"mode": "concurrent"}, Text: fmt.Sprintf("panic in a goroutine using the codecs concurrently: %v", p)})
+						cmu.Unlock()
+					}
+				}()
+				lr := rand.New(rand.NewSource(seed*100 + int64(g)))
+				csrv := compress.NewService()
+				csrv.SetLevels(map[string]int{"gzip": []int{6, 9, -1}[g%3], "br": []int{5, 11}[g%2]}) // few levels, shared by many goroutines
+				for i := 0; i < 60*scale; i++ {
+					x := hx.PRNGBytes(lr.Int63(), []int{0, 10, 700, 5000, 70000}[lr.Intn(5)], kinds[lr.Intn(len(kinds))])
+					gz, e1 := csrv.Gzip(x)
+					br, e2 := csrv.Brotli(x)
+					d1, e3 := hx.GunzipBytes(gz)
+					d2, e4 := hx.UnbrotliBytes(br)
+					d3, e5 := csrv.Gunzip(gz)
+					if e1 != nil || e2 != nil || e3 != nil || e4 != nil || e5 != nil || !bytes.Equal(d1, x) || !bytes.Equal(d2, x) || !bytes.Equal(d3, x) {
+						cmu.Lock()
+						res.add(c09Viol{Kind: "encoder_output_not_restored", Params: map[string]string{"mode": "concurrent"}, Text: fmt.Sprintf("concurrent use: %d bytes, gzip err=%v/%v/%v brotli err=%v/%v, restored lengths %d %d %d", len(x), e1, e3, e5, e2, e4, len(d1), len(d2), len(d3))})
+						cmu.Unlock()
+						return
+					}
+					cmu.Lock()
+					concurrentOps++
+					cmu.Unlock()
+				}
+			}(g)
+		}
+		wg.Wait()
+		res.ConcurrentOps = concurrentOps
 	}
 	// ---- (2) valid streams of all five formats
 	srv := compress.NewService()
@@ -393,7 +437,7 @@ func c12Child(args []string) {
 }
 
 func c12(r *hx.Run) {
-	r.Rule = "child process per batch. (1) pike's Gzip/Brotli at levels -1..12, 99 and -7 on lengths {0..64, 2^7..2^20 +-1, random} x {random, text, runs, zeros}: decoded by pike's own and by the standard decoders (plus gzip -dc and python zlib on a sample); (2) valid streams of gzip (incl. multi-member), br, lz4 block, zst (incl. zstd CLI output), snz from self-checked reference encoders, one in four gzip/br/zst streams in a container written with other encoder settings (gzip FNAME/FCOMMENT/FEXTRA/MTIME, brotli windows 2^10..2^24 with flushes, zstd streaming encoder with declared windows 2^10..2^25 and chunked writes) at random levels, up to 1 MiB and ratios > 200: pike's decoder must restore them exactly; (2b) snz and lz4 blocks of every length 0..4200 of zero / run bytes; (3) malformed streams (header edits over the first 14 bytes incl. zstd frames claiming a content size near 2^64, truncation incl. every offset of small streams, bit flips, header edits, random bytes, doubled streams) per decoder under a per-case watchdog: no panic, no hang, and a known-good stream of the format is restored right after every second malformed one. Non-trivial/distinct = (level,length,kind) / (format,kind,ratio class) / mutation class."
+	r.Rule = "child process per batch. (1) pike's Gzip/Brotli at levels -1..12, 99 and -7 on lengths {0..64, 2^7..2^20 +-1, random} x {random, text, runs, zeros}: decoded by pike's own and by the standard decoders (plus gzip -dc and python zlib on a sample); (1b) 16 goroutines encoding and decoding at once; (2) valid streams of gzip (incl. multi-member), br, lz4 block, zst (incl. zstd CLI output), snz from self-checked reference encoders, one in four gzip/br/zst streams in a container written with other encoder settings (gzip FNAME/FCOMMENT/FEXTRA/MTIME, brotli windows 2^10..2^24 with flushes, zstd streaming encoder with declared windows 2^10..2^25 and chunked writes) at random levels, up to 1 MiB and ratios > 200: pike's decoder must restore them exactly; (2b) snz and lz4 blocks of every length 0..4200 of zero / run bytes; (3) malformed streams (header edits over the first 14 bytes incl. zstd frames claiming a content size near 2^64, truncation incl. every offset of small streams, bit flips, header edits, random bytes, doubled streams) per decoder under a per-case watchdog: no panic, no hang, and a known-good stream of the format is restored right after every second malformed one. Non-trivial/distinct = (level,length,kind) / (format,kind,ratio class) / mutation class."
 	r.Assume = []string{"a malformed stream that decodes to some bytes without error is accepted (the formats carry no mandatory checksum)", "br/lz4/zst/snz reference encoders are the libraries pike links; gzip and zstd additionally use independent tools", "zst cases are capped per child because every ZSTDDecode leaves 16 goroutines behind (information, outside the given properties)"}
 	exe, _ := os.Executable()
 	batches := r.Pick(1, 12)
@@ -444,6 +488,7 @@ func c12(r *hx.Run) {
 		}
 		tot.ValidAfterMalformed += res.ValidAfterMalformed
 		tot.DenseSweep += res.DenseSweep
+		tot.ConcurrentOps += res.ConcurrentOps
 		for k, v := range res.MaxRatio {
 			if v > tot.MaxRatio[k] {
 				tot.MaxRatio[k] = v
@@ -480,6 +525,7 @@ func c12(r *hx.Run) {
 	r.Set("valid_stream_container_variants_decoded", tot.Variants)
 	r.Add("valid_streams_decoded_right_after_malformed_ones", tot.ValidAfterMalformed)
 	r.Add("block_streams_of_every_length_0_to_4200_decoded", tot.DenseSweep)
+	r.Add("concurrent_encode_decode_round_trips", tot.ConcurrentOps)
 	r.Set("malformed_by_format", tot.Malformed)
 	r.Add("malformed_rejected", tot.MalRejected)
 	r.Add("malformed_accepted_with_output", tot.MalAccepted)
